@@ -826,7 +826,7 @@ int main(int argc, char **argv)
               "reference equations (rc_exact_pixel), including the alpha channel of the a8r8g8b8 destination presentation. evaluations = scenarios; non-trivial = the destination changed AND "
               "two compared presentations were dispatched differently by the library (other operator after optimize_operator, mask elided, other IS_OPAQUE bits), observed through a link-time "
               "wrapper of _pixman_implementation_lookup_composite (observation only: the oracle never reads it). "
-              "Space 'gradients': a case is (operator, role in {source, unified-alpha mask}, context images, gradient geometry, stop set, repeat, transform, request rectangle, configuration); the picture is presented as "
+              "Space 'gradients': a case is (operator, role in {source, unified-alpha mask, component-alpha mask}, context images, gradient geometry, stop set, repeat, transform, request rectangle, configuration); the picture is presented as "
               "the gradient image itself and as an a8r8g8b8 REPEAT_NONE bits image holding a pre-rendered copy of exactly the sampled w x h region (the gradient, same repeat and transform, composited with OP_SRC into a "
               "zeroed buffer with the same origin; then used with origin 0,0), and additionally as x8r8g8b8 (junk x byte) when that region is entirely opaque; destinations must be equal bit for bit, except "
               "(G1) float-pipeline operators read the gradient in float but the copy in 8 bits: within 2 steps, and for the source role not compared for COLOR_DODGE, COLOR_BURN and the 4 HSL operators (not Lipschitz); "
@@ -850,7 +850,7 @@ int main(int argc, char **argv)
     gctx_t gc;
     gc.cfgs = c.cfgs;                                            /* quick: default, general path only; thorough: the same 5 as the main space */
     gc.dims[0] = th ? NGRQ_T : NGRQ_Q; gc.dims[1] = th ? NGXF_T : NGXF_Q; gc.dims[2] = 4; gc.dims[3] = th ? NGS_T : NGS_Q; gc.dims[4] = th ? NGD_T : NGD_Q;
-    gc.dims[5] = th ? NGCTX_T : NGCTX_Q; gc.dims[6] = 2; gc.dims[7] = RC_NOPS; gc.dims[8] = ncfg;
+    gc.dims[5] = th ? NGCTX_T : NGCTX_Q; gc.dims[6] = 3; gc.dims[7] = RC_NOPS; gc.dims[8] = ncfg;
     uint64_t NG = vf_product(gc.dims, 9);
     int nkind[3] = { 0, 0, 0 }; for (int i = 0; i < gc.dims[4]; i++) nkind[GD[i].kind]++;
     if (!only || !strcmp(only, "gradients")) vf_space_run("gradients", NG, gscen_case, &gc);
